@@ -159,6 +159,25 @@ theorem to_bv_spec_float (rm : RM) (a w v : Nat) :
 theorem fold_narrow_rne (a : Nat) (ha : a < 2 ^ 64) (hn : isNaN D a = false) : fpToFP_fp D F .RNE a = cvt D F .RNE a := by
   unfold fpToFP_fp lower narrow; rw [if_pos rfl, lift_D_notnan a ha hn]
 
+/-! ### the two cancellation rewrites of simplifications.py -/
+
+/-- `fpToIEEEBV(fpToFP(bv, sort)) ⇒ bv` (`fptobv_simplifier`): reinterpreting bits and reading them back is the identity for
+every non-NaN pattern; for NaN patterns SMT-LIB leaves `fp.to_ieee_bv` unspecified (exempt) -/
+theorem cancel_fptobv_fptofp (f : Fmt) (b : Nat) (hb : b < 2 ^ f.width) (hn : isNaN f b = false) : toIEEE f b = some b := by
+  unfold toIEEE; rw [hn]; simp [Nat.mod_eq_of_lt hb]
+
+/-- `fpToFP(fpToIEEEBV(x), sort) ⇒ x` (`fptofp_simplifier`): whatever pattern `to_ieee_bv` yields for `x` — the pattern of `x`
+itself, or any NaN pattern `p` if `x` is NaN — reinterpreting it gives `x` back as a value -/
+theorem cancel_fptofp_fptobv (f : Fmt) (x p : Nat) (hx : x < 2 ^ f.width)
+    (h : toIEEE f x = some p ∨ (isNaN f x = true ∧ isNaN f p = true)) :
+    (isNaN f x = false → p = x) ∧ (isNaN f x = true → isNaN f p = true) := by
+  rcases h with h | ⟨hx1, hp⟩
+  · unfold toIEEE at h
+    cases hn : isNaN f x
+    · simp [hn, Nat.mod_eq_of_lt hx] at h; exact ⟨fun _ => h.symm, fun h' => absurd h' (by simp)⟩
+    · simp [hn] at h
+  · exact ⟨fun h' => by rw [hx1] at h'; exact absurd h' (by simp), fun _ => hp⟩
+
 /-- full statement for FLOAT -/
 def fold_float_rne_full : Prop := ∀ a b : Nat, fpAdd F .RNE a b = add F .RNE a b ∧ fpMul F .RNE a b = mul F .RNE a b
 
